@@ -115,9 +115,11 @@ def estimator_units(world):
                 isinstance(x, tuple) and len(x) == 2 for x in r) else False
             cl.append(("posterior-is-joint-minus-log-sum-exp-per-document", ["C16"], goal))
             return cl
-        return FuncUnit("nb_estimator.MultinomialNaiveBayes.predict_log_probability%s" % (list(shape),),
-                        ["nb_estimator.MultinomialNaiveBayes.predict_log_probability", "nb_estimator._log_sum_exp"],
-                        ["C16", "C12", "C14"], setup, call, ens, prop_map={"safety": ["C16", "C14"], "frame": ["C12"]})
+        u = FuncUnit("nb_estimator.MultinomialNaiveBayes.predict_log_probability%s" % (list(shape),),
+                     ["nb_estimator.MultinomialNaiveBayes.predict_log_probability", "nb_estimator._log_sum_exp"],
+                     ["C16", "C12", "C14"], setup, call, ens, prop_map={"safety": ["C16", "C14"], "frame": ["C12"]})
+        u.bounded_desc = "loops over documents and sparse features unrolled for the document shapes %s (feature indices per document), counts and model parameters symbolic" % (list(shape),)
+        return u
     for shape in (((),), ((0, 2),), ((1,), (0, 2)), ((0, 1, 2), ())):
         out.append(mk_predict(shape))
 
@@ -141,9 +143,11 @@ def estimator_units(world):
             ok = isinstance(r, tuple) and len(r) == 2
             return [("prior-is-(log share of negatives, log share of positives)", ["C16", "C17"],
                      And(r[0] == log(z3.ToReal(nneg) / z3.RealVal(len(ys))), r[1] == log(z3.ToReal(npos) / z3.RealVal(len(ys)))) if ok else False)]
-        return FuncUnit("nb_estimator.MultinomialNaiveBayes._construct_log_class_prior[n=%d]" % n,
-                        ["nb_estimator.MultinomialNaiveBayes._construct_log_class_prior"], ["C16", "C17", "C12"],
-                        setup, call, ens, prop_map={"safety": ["C16"], "frame": ["C12"]})
+        u = FuncUnit("nb_estimator.MultinomialNaiveBayes._construct_log_class_prior[n=%d]" % n,
+                     ["nb_estimator.MultinomialNaiveBayes._construct_log_class_prior"], ["C16", "C17", "C12"],
+                     setup, call, ens, prop_map={"safety": ["C16"], "frame": ["C12"]})
+        u.bounded_desc = "the counting comprehension is unrolled for exactly %d symbolic labels" % n
+        return u
     for n in (2, 3):
         out.append(mk_prior(n))
 
@@ -179,9 +183,11 @@ def estimator_units(world):
                 for i in range(V):
                     goal.append(r[cname][i] == log(cnt[i]) - log(tot))
             return [("laplace-smoothed-likelihoods", ["C16"], And(*goal))]
-        return FuncUnit("nb_estimator.MultinomialNaiveBayes._construct_log_likelihood[2 docs,V=3]",
-                        ["nb_estimator.MultinomialNaiveBayes._construct_log_likelihood"], ["C16", "C12"], setup, call, ens,
-                        prop_map={"safety": ["C16"], "frame": ["C12"]})
+        u = FuncUnit("nb_estimator.MultinomialNaiveBayes._construct_log_likelihood[2 docs,V=3]",
+                     ["nb_estimator.MultinomialNaiveBayes._construct_log_likelihood"], ["C16", "C12"], setup, call, ens,
+                     prop_map={"safety": ["C16"], "frame": ["C12"]})
+        u.bounded_desc = "loops unrolled for two documents over a vocabulary of three features; counts, labels and alpha symbolic"
+        return u
     out.append(mk_likelihood())
     return out
 
